@@ -895,6 +895,14 @@ def writable_targets(b: Builder):
     return out
 
 
+def _not_const_view(b: Builder, hs):
+    """drops constant-flagged views of non-constant memory: `v += x` / `np.f(v, out=v)` through such a view reads the
+    view (no gradient) and writes the base (gradient) - which derivative "the recorded computation" then has is not
+    settled by the property, so only pure writes (set-item) go through them"""
+    r = b.ref
+    return [h for h in hs if not (r.const[h] and not r.const[r.owner[h]])]
+
+
 def _value_for(b: Builder, shape, allow_handles=True, dom="any"):
     """A handle whose value broadcasts to `shape` (existing handle, new array leaf, or scalar)."""
     d = b.draw
@@ -956,7 +964,7 @@ def step_setitem(b: Builder):
 
 def step_aug(b: Builder):
     d = b.draw
-    t = b.pick(writable_targets(b))
+    t = b.pick(_not_const_view(b, writable_targets(b)))
     if t is None:
         return None
     name = d(st.sampled_from(AUG_OPS))
@@ -975,7 +983,7 @@ def step_aug(b: Builder):
 
 def step_out(b: Builder):
     d = b.draw
-    t = b.pick(writable_targets(b))
+    t = b.pick(_not_const_view(b, writable_targets(b)))
     if t is None:
         return None
     shp = b.shape(t)
@@ -1044,11 +1052,13 @@ HISTORY_STEPS = [
 def history_program(draw, max_steps=14, max_elems=16, with_shape_assign=True, with_fail=False, flagged_views=False):
     b = Builder(draw, max_elems=max_elems, allow_int=False)
     if flagged_views:
-        # view ops may carry an explicit constant= flag (C04 only: values/sharing do not depend on flags)
+        # view ops may carry an explicit constant= flag.  "all": True and False (C04: values/sharing do not depend on
+        # flags); "const_only": only constant=True views (C05: a constant view never transmits a gradient, while a
+        # write through it still lands in - and differentiates through - the base's memory)
         b.ref.flag_views = "memory"
         b.allow_const_flag = True
         b.allow_const_view = True
-        b.allow_const_false = True
+        b.allow_const_false = flagged_views != "const_only"
         b.const_flag_odds = 6
         b.flag_only_views = True
     b.views_tensors_only = True
